@@ -383,7 +383,7 @@ def _clock_of_match(m, minute):
 @spec("ruleHHMM")
 def _hhmm(env, ts, m, res):
     mi = If(g_present(m, "minute"), g_int(m, "minute"), 0)
-    return [("clock", ["C06", "C11"], And(kind(res) == "Time", only(res, "hour", "minute"),
+    return [("clock", ["C06", "C11", "C05"], And(kind(res) == "Time", only(res, "hour", "minute"),
                                    field_is(res, "hour", _clock_of_match(m, mi)), field_is(res, "minute", mi)))]
 
 
@@ -396,7 +396,7 @@ def _military(env, ts, m, res):
     if res is None:
         return [("none-iff-year-like", ["C05", "C06"], Not(accept))]
     return [("none-iff-year-like", ["C05", "C06"], accept),
-            ("clock", ["C06", "C11"], And(kind(res) == "Time", only(res, "hour", "minute"),
+            ("clock", ["C06", "C11", "C05"], And(kind(res) == "Time", only(res, "hour", "minute"),
                                    field_is(res, "hour", _clock_of_match(m, mi)), field_is(res, "minute", mi)))]
 
 
